@@ -7,7 +7,7 @@ git -C /repo status --short | grep -q . && { echo "/repo is dirty"; exit 2; }
 git -C /repo apply /verif/seeded/$N/patch.diff || { echo "patch does not apply"; exit 2; }
 # evidence / replays written while the seed is applied must not survive: keep copies, restore on exit
 SAVE=$(mktemp -d /tmp/tryseed.XXXXXX); cp -a evidence "$SAVE/evidence"; cp -a replays "$SAVE/replays" 2>/dev/null
-trap 'git -C /repo checkout -- .; rm -rf /verif/evidence /verif/replays; cp -a "$SAVE/evidence" /verif/evidence; [ -d "$SAVE/replays" ] && cp -a "$SAVE/replays" /verif/replays; rm -rf "$SAVE"' EXIT
+trap 'git -C /repo checkout -- .; for g in constants sites partial api alts; do python3 /verif/gen/$g.py; done; rm -rf /verif/evidence /verif/replays; cp -a "$SAVE/evidence" /verif/evidence; [ -d "$SAVE/replays" ] && cp -a "$SAVE/replays" /verif/replays; rm -rf "$SAVE"' EXIT
 for p in "$@"; do
   out=$(./check $p 2>&1); rc=$?
   echo "$p rc=$rc :: $(echo "$out" | grep -E "^VIOLATION|INTERNAL" | head -2 | tr '\n' ' ') $(echo "$out" | grep -E "^C[0-9]+ tier" | sed 's/.*theorems/theorems/')"
